@@ -77,13 +77,15 @@ Definition norm_size (s : Z) : Z := if s <=? 0 then 1 else s.
 Definition size_align (s : Z) : Z * Z :=
   let s' := norm_size s in let a := natural_alignment s' in ((s' + a - 1) / a * a, a).
 
-(* the loop over the following allocas: offsets given to them, final overall size *)
+(* the loop over the following allocas: offsets given to them, final overall size.  Since 09d7e093
+   every block is placed at an offset aligned to its own alignment ([max_align] only tracks the
+   alignment of the whole group). *)
 Fixpoint merge (overall max_align : Z) (sizes : list Z) : list Z * Z :=
   match sizes with
   | [] => ([], overall)
   | s :: r =>
       let '(sz, a) := size_align s in
-      let overall' := if max_align <? a then (overall + a - 1) / a * a else overall in
+      let overall' := (overall + a - 1) / a * a in
       let max' := if max_align <? a then a else max_align in
       let '(offs, tot) := merge (overall' + sz) max' r in
       (overall' :: offs, tot)
